@@ -253,6 +253,8 @@ def run(tier):
     C.note("counts", "%d fields normalised" % n)
     C.floor("C13/fields", n, 60, "fields normalised")
     check_comparator_laws(F, C, list(all_rels.values()), tier)
+    check_entry_comparator(F, C, tier)
+    check_order_independent(F, C, tier)
     C.assumptions += ["bounded generator; component strings concrete", "debversion::Version ordering = Debian Policy 5.6.12 as re-implemented here", "slice::sort is stable and only consults Ord::cmp"]
     return C.finish("wrap_and_sort is interpreted on parser-built trees of generated fields in six layouts; canonical single-line form, multiset preservation of entries/alternatives/substvars, sortedness, strict re-parse, idempotence (on the returned tree and on its re-read text) and comparator laws are checked.")
 
@@ -320,3 +322,111 @@ def check_comparator_laws(F, C, rels, tier):
                     want = "Less" if vals[i][0]["name"].encode() < vals[j][0]["name"].encode() else "Greater"
                     C.ob("C13/cmp-name-first", "%s  vs  %s" % (li, lj), a == want, "cmp = %s although the names order as %s" % (a, want), f["sp"])
     C.floor("C13/cmp-pairs", n, 100, "relation pairs compared")
+
+
+ENTRY_SET = [
+    [rel("a")], [rel("a"), rel("b")], [rel("a"), rel("b"), rel("c")], [rel("a"), rel("c")], [rel("b")],
+    [rel("a", version=(">=", "1.0"))], [rel("a", version=(">=", "1.0")), rel("b")], [rel("a"), rel("b"), rel("c"), rel("d")],
+]
+
+
+def check_entry_comparator(F, C, tier):
+    """Entry::cmp on all ordered pairs of a set of entries in which some are proper prefixes of others (one, two and
+    three alternatives more): reflexive, cmp(y,x) is the reverse of cmp(x,y), Equal only for entries with the same
+    alternatives, and transitive over all triples - without these 'sorted' is not defined and a stable sort's result
+    depends on the input order."""
+    key = "<%sEntry as core::cmp::Ord>::cmp" % PFX
+    f = F.fn(key)
+    if f is None:
+        return
+    tm = SortMod(F, rp.KIND)
+    I = hirai.Interp(F, tm, max_depth=20)
+    ents = ENTRY_SET
+    txt = [db.text_of_tokens(relspec.field_tokens([e], "canonical")) for e in ents]
+
+    def cmp(i, j):
+        toks = relspec.field_tokens([ents[i], ents[j]], "canonical")
+        rv, errs, st, mod = db.parse_relations(F, toks)
+        if rv is None:
+            return "undecided:parse"
+        s = hirai.State({}, dict(st.mon), 0)
+        h = treemodel.heap_get(s)
+        root = rv[2][0][2]
+        en = [c for c in h[root][3] if h[c][2] == "ENTRY"]
+        a = ("enum", PFX + "Entry", (("abs", "nref", en[0]),))
+        b = ("enum", PFX + "Entry", (("abs", "nref", en[1]),))
+        s, pa = I.newtemp(s, a)
+        s, pb = I.newtemp(s, b)
+        try:
+            out = I.inline(f, [("ref", pa), ("ref", pb)], s)
+        except hirai.Violation as e:
+            return "undecided:%s" % e
+        if len(out) == 1 and out[0][0] == OK:
+            v = I.deref_val(out[0][2], out[0][1])
+            if v[0] == "enum" and v[1].startswith(ORD):
+                return v[1][len(ORD):]
+        return "undecided:%s" % [(ctl, str(v)[:60]) for ctl, v, s_ in out]
+    n = len(ents)
+    M = [[cmp(i, j) for j in range(n)] for i in range(n)]
+    flip = {"Less": "Greater", "Greater": "Less", "Equal": "Equal"}
+    cnt = 0
+    for i in range(n):
+        C.ob("C13/entry-cmp-reflexive", txt[i], M[i][i] == "Equal", "cmp(x, x) = %s" % M[i][i], f["sp"])
+        for j in range(n):
+            if i == j:
+                continue
+            cnt += 1
+            if i < j:
+                C.ob("C13/entry-cmp-antisymmetric", "%s  vs  %s" % (txt[i], txt[j]), flip.get(M[i][j]) == M[j][i], "cmp(a,b) = %s but cmp(b,a) = %s" % (M[i][j], M[j][i]), f["sp"])
+            C.ob("C13/entry-cmp-equal-means-same", "%s  vs  %s" % (txt[i], txt[j]), M[i][j] != "Equal",
+                 "two entries with different alternatives compare Equal: a stable sort keeps them in input order, so the normalised text depends on the order of the input", f["sp"])
+    le = lambda x: x in ("Less", "Equal")
+    for i in range(n):
+        for j in range(n):
+            for k in range(n):
+                if len({i, j, k}) == 3 and le(M[i][j]) and le(M[j][k]):
+                    strict = M[i][j] == "Less" or M[j][k] == "Less"
+                    ok = M[i][k] == "Less" if strict else le(M[i][k])
+                    C.ob("C13/entry-cmp-transitive", "%s ; %s ; %s" % (txt[i], txt[j], txt[k]), ok,
+                         "cmp(x,y) = %s and cmp(y,z) = %s but cmp(x,z) = %s" % (M[i][j], M[j][k], M[i][k]), f["sp"])
+    C.floor("C13/entry-cmp-pairs", cnt, 56, "ordered entry pairs compared")
+
+
+ORDER_FIELDS = [
+    [[rel("a"), rel("b"), rel("c")], [rel("a"), rel("b")], [rel("a")]],
+    [[rel("a"), rel("b")], [rel("a")]],
+    [[rel("zlib")], [rel("alpha", version=(">=", "1.0"))], [rel("alpha")], [rel("alpha"), rel("beta")]],
+    [[rel("a", version=(">=", "1.0")), rel("b")], [rel("a", version=(">=", "1.0"))], [rel("a", version=("<<", "2.0"))]],
+]
+
+
+def check_order_independent(F, C, tier):
+    """the same entries given in every order normalise to one text (what 'sorted' means for a list of distinct entries)"""
+    sp = F.fn(WS_RELS)["sp"]
+    n = 0
+    for fi, entries in enumerate(ORDER_FIELDS):
+        perms = list(itertools.permutations(entries))
+        if tier != "thorough":
+            perms = [perms[0], perms[-1]] + perms[1:3]
+        outs = {}
+        for perm in perms:
+            toks = relspec.field_tokens(list(perm), "canonical")
+            text = db.text_of_tokens(toks)
+            rels, errs, st, mod = db.parse_relations(F, toks)
+            if rels is None:
+                continue
+            tm = SortMod(F, rp.KIND)
+            tm.immutable_mutations = []
+            I = hirai.Interp(F, tm, max_depth=20)
+            I.max_recursion = 8
+            try:
+                res = I.inline(F.fn(WS_RELS), [rels], hirai.State({}, dict(st.mon), 0))
+            except hirai.Violation as e:
+                res = []
+            t = [node_text(tm, s, I.deref_val(s, v)) if ctl == OK else "%s %s" % (ctl, str(v)[:80]) for ctl, v, s in res]
+            outs[text] = t
+            n += 1
+        distinct = sorted({repr(v) for v in outs.values()})
+        C.ob("C13/order-independent", "entries %s in %d orders" % (db.text_of_tokens(relspec.field_tokens(entries, "canonical")), len(outs)), len(distinct) == 1 and all(len(v) == 1 for v in outs.values()),
+             "the same entries normalise to different texts depending on their input order: %s" % dict(list(outs.items())[:4]), sp)
+    C.floor("C13/order-runs", n, 12, "orderings normalised")
